@@ -19,7 +19,7 @@ BASE = {
     "FeeVals": [100003], "CostVals": [[20, 30]], "MaxVals": [100000],
     "Acts": ["Register", "SetMax", "Authorize", "UnAuthorize", "Withdraw", "Quit", "Black", "White", "Commit", "AddInit", "ReduceInit",
              "SetCost", "Fee", "WithdrawFee", "TransferPenalty"],
-    "WithInvalid": True, "MaxOps": 3, "Script": [],
+    "WithInvalid": True, "MaxOps": 3, "Script": [], "GenesisOwners": {},
     "invariants": "TypeOK Backed NoOverWithdraw TotalPosOK Withdrawable NoWrap",
 }
 ALL_ACTS = list(BASE["Acts"])
@@ -56,12 +56,20 @@ def act_rec(a):
     return r
 
 
+def owners(c):
+    o = {"g%d" % i: "og" for i in range(1, 8)}
+    o.update({"p1": "o1", "p2": "o2"})
+    o.update(c.get("GenesisOwners", {}))
+    return o
+
+
 def gen_files(c, edges=True):
     """Governance_Gen.tla / .cfg for configuration c"""
     peers = ["g%d" % i for i in range(1, 8)] + c["Cand"]
     mod = """--------------------------- MODULE Governance_Gen ---------------------------
 EXTENDS Governance_MC
 G_Cand == %s
+G_OwnerOf == [p \in MC_GenPeers \cup MC_Cand2 |-> %s]
 G_Authorizers == %s
 G_AuthTargets == %s
 G_OpTargets == %s
@@ -78,7 +86,9 @@ G_MaxVals == %s
 G_Acts == %s
 G_Script == %s
 =============================================================================
-""" % (tset(c["Cand"]), tset(c["Authorizers"]), tset(c["AuthTargets"]), tset(c["OpTargets"]),
+""" % (tset(c["Cand"]),
+       " ".join(("CASE " if i == 0 else "[] ") + 'p = "%s" -> "%s"' % (q, o) for i, (q, o) in enumerate(sorted(owners(c).items()))),
+       tset(c["Authorizers"]), tset(c["AuthTargets"]), tset(c["OpTargets"]),
        " ".join(("CASE " if i == 0 else "[] ") + 'p = "%s" -> %d' % (g, v) for i, (g, v) in enumerate(sorted(c["GenesisPos"].items()))),
        c["Fund"], tset(c["RegPos"]), tset(c["AuthPos"]), tset(c["UnAuthPos"]), tset(c["WdPos"]), tset(c["InitDelta"]),
        tset(c["FeeVals"]), tset(c["CostVals"]), tset(c["MaxVals"]), tset(c["Acts"]),
@@ -88,7 +98,7 @@ CONSTANTS
   GenPeers <- MC_GenPeers
   CandPeers <- G_Cand
   Addrs <- MC_Addrs
-  OwnerOf <- MC_OwnerOf
+  OwnerOf <- G_OwnerOf
   PkRank <- MC_PkRank
   K = %d
   PosLimit = %d
@@ -134,6 +144,7 @@ def harness_cfg(c):
             "minAuthorizePos": 0 if (c["MinAuth"] == 500 and c["DappFee"] == 0 and c["SplitNum"] == 49) else c["MinAuth"],
             "dappFee": c["DappFee"], "splitNum": c["SplitNum"],
             "genesisInitPos": [c["GenesisPos"]["g%d" % i] for i in range(1, 8)], "genesisMaxAuthorize": c["GenesisMax"],
+            "genesisOwners": [owners(c)["g%d" % i] for i in range(1, 8)],
             "pkorder": ["g1", "g2", "g3", "g4", "g5", "g6", "g7", "p1", "p2"],
             "fund": {a: c["Fund"] for a in ADDRS}, "setupCommits": 6}
 
@@ -220,6 +231,13 @@ def replay(ctx, binary, c, paths, tag):
 
 
 # ------------------------------------------------------------------ oracles on what the real contract did
+def genesis_deposits(c):
+    d = {}
+    for q, v in c["GenesisPos"].items():
+        d[owners(c)[q]] = d.get(owners(c)[q], 0) + v
+    return d
+
+
 class Oracle:
     """property-level checks on the observed real states (independent of the model's prediction)"""
 
@@ -229,7 +247,8 @@ class Oracle:
 
     def start(self, o):
         self.dep = {a: 0 for a in ADDRS}
-        self.dep["og"] = self.gen
+        for a, v in (self.gen.items() if isinstance(self.gen, dict) else [("og", self.gen)]):
+            self.dep[a] += v
         self.wd = {a: 0 for a in ADDRS}
         self.prev = o
         self.check_state(o, {"name": "Init"}, [])
@@ -413,7 +432,7 @@ def trace_run(ctx, binary, c, ntraces, nsteps, tag, prefix=()):
 
 def trace_check(ctx, prop, c, traces, tag):
     """oracles on every observed state + TLC validation of the whole record against Governance_Trace"""
-    oracle = Oracle(ctx, prop, sum(c["GenesisPos"].values()))
+    oracle = Oracle(ctx, prop, genesis_deposits(c))
     events = [{"event": "Header"}]
     index = []  # event index -> (trace, step)
     for ti, t in enumerate(traces):
@@ -483,27 +502,48 @@ C11_PREFIX = [
 C11_EPOCH_ACTS = ["UnAuthorize", "Withdraw", "Quit", "Black", "Commit", "ReduceInit", "Authorize"]
 
 
+DEMOTE_POS = {"g1": 10000, "g2": 13000, "g3": 13000, "g4": 13000, "g5": 13000, "g6": 15000, "g7": 20000}
+# C11: g1 (consensus, weakest) has two holders; p1 registers with more stake; then free: un-authorize from g1 / commit (demotes g1) / ...
+C11_DEMOTE_PREFIX = [
+    {"name": "Authorize", "a": "a1", "p": "g1", "x": 1000}, {"name": "Authorize", "a": "a2", "p": "g1", "x": 1000}, {"name": "Commit"},
+    {"name": "Register", "p": "p1", "a": "o1", "x": 16000},
+]
+# C10: the same with cost percentages 0 in effect on g1, the un-authorization in the view before the demoting commit, fee income
+# before and after it; then free: the settlement that pays g1 as a peer that was consensus in the previous view and is candidate now
+C10_DEMOTE_PREFIX = [
+    {"name": "Authorize", "a": "a1", "p": "g1", "x": 1000}, {"name": "Authorize", "a": "a2", "p": "g1", "x": 1000},
+    {"name": "SetCost", "p": "g1", "a": "o2", "x": 0, "y": 0}, {"name": "Commit"}, {"name": "Fee", "x": 100003}, {"name": "Commit"},
+    {"name": "Register", "p": "p1", "a": "o1", "x": 16000}, {"name": "UnAuthorize", "a": "a1", "p": "g1", "x": 500},
+    {"name": "Fee", "x": 100003}, {"name": "Commit"}, {"name": "Fee", "x": 99991},
+]
+
+
 def configs(prop, thorough):
     """(tag, configuration, do_edge_replay) list"""
     if prop == "C11":
         epoch = dict(Script=[full(a) for a in C11_PREFIX], Acts=C11_EPOCH_ACTS, AuthTargets=["g7", "p1"], OpTargets=["g7", "p1"],
                      UnAuthPos=[500], WdPos=[500])
-        cs = [conf(tag="stake-d3", MaxOps=3), conf(tag="epochs-d2", MaxOps=2, **epoch)]
+        demote = dict(Script=[full(a) for a in C11_DEMOTE_PREFIX], GenesisPos=DEMOTE_POS, AuthTargets=["g1", "p1"], OpTargets=["g1", "p1"],
+                      Acts=["UnAuthorize", "Withdraw", "Commit", "Authorize", "Quit", "ReduceInit"], UnAuthPos=[500, 1000], WdPos=[500])
+        cs = [conf(tag="stake-d3", MaxOps=3), conf(tag="epochs-d2", MaxOps=2, **epoch), conf(tag="demotion-d2", MaxOps=2, **demote)]
         if thorough:
             cs = [conf(tag="stake-d3-wide", MaxOps=3, AuthPos=[500, 1500], Acts=[a for a in ALL_ACTS if a not in ("SetCost", "Fee", "WithdrawFee")],
                        invariants=BASE["invariants"] + " NoWrapBlack"),
                   conf(tag="stake-2cand-d3", MaxOps=3, Cand=["p1", "p2"], AuthTargets=["g1", "p1", "p2"], OpTargets=["g7", "p1", "p2"],
                        RegPos=[10000, 16000], Penalty=7),
-                  conf(tag="epochs-d4", MaxOps=4, WithInvalid=False, **epoch)]
+                  conf(tag="epochs-d4", MaxOps=4, WithInvalid=False, **epoch),
+                  conf(tag="demotion-d4", MaxOps=4, WithInvalid=False, **demote)]
         return cs
     script = [full(a) for a in C10_PREFIX]
     base = dict(Script=script, Acts=C10_ACTS, FeeVals=[7, 100003], UnAuthPos=[500], WdPos=[500], CostVals=[[0, 100]],
                 AuthTargets=["g7", "p1"], OpTargets=["g7", "p1"])
-    cs = [conf(tag="split-d2", MaxOps=2, **base)]
+    demote = dict(base, Script=[full(a) for a in C10_DEMOTE_PREFIX], GenesisPos=DEMOTE_POS, GenesisOwners={"g1": "o2"}, AuthTargets=["g1", "p1"], OpTargets=["g1", "p1"])
+    cs = [conf(tag="split-d2", MaxOps=2, **base), conf(tag="demotion-split-d2", MaxOps=2, **demote)]
     if thorough:
         cs = [conf(tag="split-d3", MaxOps=3, invariants=BASE["invariants"] + " NoWrapBlack", **base),
               conf(tag="split-A100-dapp", MaxOps=2, A=100, B=0, DappFee=50, HasDapp=True, **base),
-              conf(tag="split-A0-num8", MaxOps=2, A=0, B=100, SplitNum=8, Penalty=100, **base)]
+              conf(tag="split-A0-num8", MaxOps=2, A=0, B=100, SplitNum=8, Penalty=100, **base),
+              conf(tag="demotion-split-d3", MaxOps=3, **demote)]
     return cs
 
 
@@ -579,7 +619,7 @@ def run_check(ctx, prop):
         obs = replay(ctx, binary, c, paths, c["tag"])
         if obs is None:
             continue
-        oracle = Oracle(ctx, prop, sum(c["GenesisPos"].values()))
+        oracle = Oracle(ctx, prop, genesis_deposits(c))
         ns, drift = compare_paths(ctx, prop, c, paths, obs, oracle, fields)
         ctx.log("replay %s: %d paths, %d steps on the real contract, drift %d, oracle %s" % (c["tag"], len(paths), ns, drift, oracle.counts))
         npaths += len(paths)
